@@ -117,10 +117,22 @@ Definition src_call (dst : list N) (c : call) : option (GoSem.res (list N)) :=
   | _ => None
   end.
 
+(* the translation appends element by element (dst ++ [x]): quadratic under vm_compute, so the boundary cases with
+   65535/65536 elements are left to the model (which is proved equal to the translation for all inputs anyway) *)
+Definition call_size (c : call) : nat :=
+  match c with
+  | KString s | KBytes s | KHex s | KJSON s | KCBOR s | KIP s | KMAC s | KObjectData s | KKey s => length s
+  | KStrings l => length l | KBools l => length l
+  | KInts l | KInts8 l | KInts16 l | KInts32 l | KInts64 l => length l
+  | KUints l | KUints8 l | KUints16 l | KUints32 l | KUints64 l => length l
+  | KFs32 l | KFs64 l => length l
+  | _ => 0%nat
+  end.
+
 (* 999 is not a byte: a case on which the translated source and the model disagree can match no observation *)
 Definition c09_run (c : tables * (list N * call)) : list N :=
   let m := run_call (fst c) (fst (snd c)) (snd (snd c)) in
-  match src_call (fst (snd c)) (snd (snd c)) with
+  match (if (call_size (snd (snd c)) <=? 2000)%nat then src_call (fst (snd c)) (snd (snd c)) else None) with
   | None => m
   | Some (GoSem.Ok b) => if list_eqb N.eqb b m then m else [999]
   | Some _ => [999]
